@@ -315,6 +315,7 @@ var caseStartKinds = map[string]map[string]bool{
 	"Trace_Gen":      {"Gen": true},
 	"Trace_Embed":    {"Embed": true, "Served": true},
 	"Trace_Reader":   {"Read": true},
+	"Trace_Client":   {"E2E": true},
 	"Trace_Refs":     {"Pair": true},
 	"Trace_Answer":   {"Serve": true, "Fuzz": true},
 }
